@@ -268,8 +268,8 @@ def rule_twopass(c, prog):
     # writer
     fn = prog.fn("rbx_xml::serializer::encode_internal")
     cfg = D.CFG(fn)
-    ser_inst = {i for i, cal, g, t in D.mir_calls(fn) if cal and cal.endswith("serializer::serialize_instance")}
-    ser_ss = {i for i, cal, g, t in D.mir_calls(fn) if cal and cal.endswith("serializer::serialize_shared_strings")}
+    ser_inst = D.mir_calls_carrying(fn, r"serializer::serialize_instance$")
+    ser_ss = D.mir_calls_carrying(fn, r"serializer::serialize_shared_strings$")
     ok = bool(ser_inst) and len(ser_ss) == 1 and not any(i in cfg.reachable_from(list(ser_ss)[0]) for i in ser_inst)
     dom = cfg.dominators()
     ok_blocks = [i for i, bb in enumerate(cfg.blocks) for st in bb["stmts"] if st["k"] == "assign" and st.get("rk", "").startswith("agg:core::result::Result::Ok")]
@@ -463,22 +463,42 @@ def rule_name(c, prog):
             find_opts(val, opts)
         firsts = [o for o in opts if o[1].endswith("::next")]
         lasts = [o for o in opts if o[1].endswith("::next_back")]
-        if len(firsts) != 1 or len(lasts) != 1:
-            raise sym.Unsupported(f"expected one first-character and one last-character probe, found {len(firsts)}/{len(lasts)}")
-        FIRST, LAST = firsts[0], lasts[0]
+
+        def find_apps(t, suffixes, out):
+            if isinstance(t, (tuple, list)) and t:
+                if isinstance(t, tuple) and t[0] == "app" and isinstance(t[1], str) and t[1].endswith(suffixes) and t not in out:
+                    out.append(t)
+                for x in t:
+                    find_apps(x, suffixes, out)
+            return out
+        sw = []
+        for e in I.events:
+            find_apps(e, ("str>::starts_with", "str>::ends_with"), sw)
+        if val is not None:
+            find_apps(val, ("str>::starts_with", "str>::ends_with"), sw)
+        # `value.starts_with(char::is_whitespace)` is the same probe as `value.chars().next().map_or(false, is_whitespace)`
+        sw = [t for t in sw if len(t[2]) == 2 and t[2][0] == vt and "is_whitespace" in sym.term_str(t[2][1], 4)]
+        has_first = len(firsts) == 1 or any(t[1].endswith("starts_with") for t in sw)
+        has_last = len(lasts) == 1 or any(t[1].endswith("ends_with") for t in sw)
+        if len(firsts) > 1 or len(lasts) > 1 or not has_first or not has_last:
+            raise sym.Unsupported(f"expected one first-character and one last-character probe, found {len(firsts)}/{len(lasts)} (+{len(sw)} starts_with/ends_with)")
+        FIRST = firsts[0] if firsts else None
+        LAST = lasts[0] if lasts else None
         bad = []
         for F, WF, L, WL in itertools.product((False, True), repeat=4):
             if (not F and WF) or (not L and WL) or (F != L):
                 continue      # a string has a first character iff it has a last one
 
             def oracle(t, F=F, WF=WF, L=L, WL=WL):
-                if t[0] == "is" and t[2] == sym.SOME and t[1] in (FIRST, LAST):
+                if t[0] == "app" and t in sw:
+                    return (F and WF) if t[1].endswith("starts_with") else (L and WL)
+                if t[0] == "is" and t[2] == sym.SOME and t[1] in (FIRST, LAST) and t[1] is not None:
                     return F if t[1] == FIRST else L
                 if t[0] == "app" and t[1].endswith("::is_whitespace") and len(t[2]) == 1:
                     a = t[2][0]
-                    if C02_contains(a, FIRST):
+                    if FIRST is not None and C02_contains(a, FIRST):
                         return WF
-                    if C02_contains(a, LAST):
+                    if LAST is not None and C02_contains(a, LAST):
                         return WL
                 return None
             evs, x = sym.taken_path(I.events, oracle)
